@@ -36,9 +36,11 @@ type Op struct {
 }
 
 type Edge struct {
-	F  int `json:"f"`
-	T  int `json:"t"`
-	Op Op  `json:"op"`
+	F    int   `json:"f"`
+	T    int   `json:"t"`
+	Op   Op    `json:"op"`
+	Req  *HReq `json:"req,omitempty"`  // Http.tla edges
+	HTTP *HRes `json:"http,omitempty"` // Http.tla edges
 }
 
 type Graph struct {
